@@ -347,6 +347,11 @@ func (g *gWorld) applyFilter(op *gOp, ad *gAdapter, targetOK func(int) bool) str
 	}()
 	// runs one query and compares with the core filter; the query is exhausted
 	check := func(q gQuery, flt ecs.Filter, what string) string {
+		if _, ok := flt.(*ecs.RelationFilter); ok {
+			what += " [relation filter with a target]"
+			g.label("generic relation filter with a target queried")
+			g.relQueries++
+		}
 		want := func() []ecs.Entity { qq := g.Wg.Query(flt); return entitySet(&qq) }()
 		if c := q.Base().Count(); c != len(want) {
 			q.Base().Close()
@@ -427,22 +432,32 @@ func (g *gWorld) applyFilter(op *gOp, ad *gAdapter, targetOK func(int) bool) str
 			f.Exclusive()
 			st.exclusive = true
 		case "relation":
-			if st.registered || st.relType >= 0 {
+			if st.registered {
 				continue
 			}
-			rt := -1
-			for _, t := range ad.Types {
-				if isRelType(t) && !st.optional[t] {
-					rt = t
+			rt := st.relType
+			if rt < 0 {
+				for _, t := range ad.Types {
+					if isRelType(t) && !st.optional[t] {
+						rt = t
+					}
 				}
 			}
 			if rt < 0 {
 				continue
 			}
-			if len(s.T) > 0 && s.T[0]%3 == 0 && s.E != -2 && targetOK(s.E) {
+			// WithRelation may be called again on a filter that was already configured and used:
+			// a new fixed target replaces the previous configuration (a filter object reused for
+			// one parent after the other)
+			again := st.relType >= 0
+			if len(s.T) > 0 && (s.T[0]%3 == 0 || (st.fixed && s.T[0]%3 == 1)) && s.E != -2 && targetOK(s.E) {
 				f.WithRelation(allStaticTypes[rt], g.handle(s.E))
+				if again && queriesBuilt > 0 && (!st.fixed || st.fixedT != s.E) {
+					g.label("WithRelation called again with another fixed target after a query")
+				}
 				st.fixed, st.fixedT = true, s.E
-			} else {
+			} else if !st.fixed {
+				// (without a target after a fixed one: "set permanently" - not generated)
 				f.WithRelation(allStaticTypes[rt])
 			}
 			st.relType = rt
@@ -703,46 +718,77 @@ func (g *gWorld) genGenericOp(rt *rapid.T, focus int) gOp {
 	return op
 }
 
-func TestC18(t *testing.T) {
-	withStats(t, "C18", func(st *core.Stats) {
-		st.Rule = fmt.Sprintf("generated code instantiates MapN/FilterN/QueryN for every arity 0-12 in natural order, reversed order and with the relation type at a varying position (%d instantiations over 17 static types), plus Map, Exchange; generated op histories drive a world Wg through the generic calls and a lock-step world Wc through the ID-based calls the documentation names as equivalent (creation with/without values and targets, batch creation, Add/Assign/Remove, batch variants, RemoveEntities(exclusive), Map.Set/SetRelation/SetRelationBatch(Q), Exchange.*); after every op both worlds are compared completely (alive, masks, every component's bytes, relation targets, returned handles and counts). MapN.Get/GetUnchecked and QueryN.Get must be pointer-identical, position by position, to World.Get of the declared type (nil <=> absent). Filter scripts call Optional/With/Without/Exclusive/WithRelation(target?) before and BETWEEN queries, Register/Unregister, queries with a call-time target, and two queries open at once with different targets; every query's entity set, Count and Relation() must equal those of the core MaskFilter/RelationFilter built from the builder state at query-build time; non-trivial = a filter queried again after its builder was modified or used, two open queries, an optional component absent on a visited entity, or a Get on arity >= 2; every adapter is exercised in every run (round-robin)", len(gAdapters))
+// genericProp runs generated generic-vs-core histories under a property's name. owns decides
+// whether a mismatch belongs to the property (nil: every mismatch does); a mismatch that does not
+// ends the case quietly and is counted. relOnly restricts the focus adapters to those with a
+// relation type.
+type genericProp struct {
+	ID, Test string
+	Rule     string
+	Owns     func(msg string) bool
+	RelOnly  bool
+	NonTri   func(g *gWorld) bool
+}
+
+func runGenericProp(t *testing.T, gp *genericProp) {
+	withStats(t, gp.ID, func(st *core.Stats) {
+		st.Rule = gp.Rule
+		owns := func(msg string) bool { return gp.Owns == nil || gp.Owns(msg) }
 		if path, ok := replaying(); ok {
 			var r gReplay
 			if err := core.ReadReplay(path, &r); err != nil {
 				t.Fatalf("cannot read replay: %v", err)
 			}
-			if msg, _, _ := runGenericCase(&r); msg != "" {
-				t.Fatalf("C18 violated: %s", msg)
+			if msg, _, _ := runGenericCase(&r); msg != "" && owns(msg) {
+				t.Fatalf("%s violated: %s", gp.ID, msg)
 			}
 			return
 		}
+		focusSet := []int{}
+		for i, ad := range gAdapters {
+			if !gp.RelOnly || ad.HasRel {
+				focusSet = append(focusSet, i)
+			}
+		}
 		caseNo := 0
 		rapid.Check(t, func(rt *rapid.T) {
-			c := &gReplay{Property: "C18", Build: core.BuildName(), Cap: rapid.SampledFrom([]int{1, 2, 8, 128}).Draw(rt, "cap")}
+			c := &gReplay{Property: gp.ID, Test: gp.Test, Build: core.BuildName(), Cap: rapid.SampledFrom([]int{1, 2, 8, 128}).Draw(rt, "cap")}
 			// every case focuses on one adapter (round-robin, so that all arities x variants are covered
 			// in every run) and mixes in others; ops are drawn from the bookkeeping of the worlds
-			focus := caseNo % len(gAdapters)
+			focus := focusSet[caseNo%len(focusSet)]
 			caseNo++
 			cs := st.Begin()
 			defer cs.End()
 			cs.Label("focus adapter " + gAdapters[focus].Name)
 			cs.Sample(func() any { return c })
 			g := newGWorld(c.Cap)
+			aborted := false
 			fail := func(msg string) {
+				if !owns(msg) {
+					// another property's business (C18 decides it): the case ends here
+					if !aborted {
+						st.Count("unowned mismatch (case ended)", 1)
+					}
+					aborted = true
+					return
+				}
 				c.Message = msg
 				core.WriteFail(c)
-				rt.Fatalf("C18 violated: %s", msg)
+				rt.Fatalf("%s violated: %s", gp.ID, msg)
 			}
 			defer func() {
 				for l := range g.labels {
 					cs.Label(l)
 				}
-				if g.nontri {
+				if (gp.NonTri == nil && g.nontri) || (gp.NonTri != nil && gp.NonTri(g)) {
 					cs.NonTrivial()
 				}
 			}()
 			rt.Repeat(map[string]func(*rapid.T){
 				"op": func(rt *rapid.T) {
+					if aborted {
+						return
+					}
 					op := g.genGenericOp(rt, focus)
 					c.Ops = append(c.Ops, op)
 					cs.Feed(fmt.Sprintf("%+v", op))
@@ -750,9 +796,11 @@ func TestC18(t *testing.T) {
 					var msg string
 					if p := core.Call(func() { msg = g.apply(&c.Ops[k]) }); p != nil {
 						fail(fmt.Sprintf("op %d %+v panicked: %v", k, op, p))
+						return
 					}
 					if msg != "" {
 						fail(fmt.Sprintf("op %d %+v: %s", k, op, msg))
+						return
 					}
 					if msg := g.compare(); msg != "" {
 						fail(fmt.Sprintf("after op %d %+v: %s", k, op, msg))
@@ -761,4 +809,9 @@ func TestC18(t *testing.T) {
 			})
 		})
 	})
+}
+
+func TestC18(t *testing.T) {
+	runGenericProp(t, &genericProp{ID: "C18", Test: "TestC18",
+		Rule: fmt.Sprintf("generated code instantiates MapN/FilterN/QueryN for every arity 0-12 in natural order, reversed order and with the relation type at a varying position (%d instantiations over 17 static types), plus Map, Exchange; generated op histories drive a world Wg through the generic calls and a lock-step world Wc through the ID-based calls the documentation names as equivalent (creation with/without values and targets, batch creation, Add/Assign/Remove, batch variants, RemoveEntities(exclusive), Map.Set/SetRelation/SetRelationBatch(Q), Exchange.*); after every op both worlds are compared completely (alive, masks, every component's bytes, relation targets, returned handles and counts). MapN.Get/GetUnchecked and QueryN.Get must be pointer-identical, position by position, to World.Get of the declared type (nil <=> absent). Filter scripts call Optional/With/Without/Exclusive/WithRelation(target?) before and BETWEEN queries, Register/Unregister, queries with a call-time target, and two queries open at once with different targets; every query's entity set, Count and Relation() must equal those of the core MaskFilter/RelationFilter built from the builder state at query-build time; non-trivial = a filter queried again after its builder was modified or used, two open queries, an optional component absent on a visited entity, or a Get on arity >= 2; every adapter is exercised in every run (round-robin)", len(gAdapters))})
 }
